@@ -472,10 +472,39 @@ impl Ctx<'_> {
 }
 
 impl Ctx<'_> {
+    /// `[v; n]` written in place (v constant or not, n constant or not) indexed, sliced and measured like the array it denotes
+    fn repeat_literals(&mut self) {
+        for (vtext, v) in [("7", Variable::Int(7)), ("hi(7)", Variable::Int(7)), ("\"a\"", Variable::String(Arc::from("a"))), ("id(\"a\")", Variable::String(Arc::from("a")))] {
+            for n in 0..5i64 {
+                for ntext in [n.to_string(), format!("hi({n})")] {
+                    let lit = format!("[{vtext}; {ntext}]");
+                    let seq = Seq::Arr(vec![v.clone(); n as usize], lit.clone());
+                    let expected_len = Ok(Variable::Int(n));
+                    self.literal(&seq, "len:repeat-literal", &format!("{HALF_PRELUDE}std.len({lit})"), &expected_len);
+                    for i in -(n + 2)..=(n + 2) {
+                        let expected = match index_oracle(n as usize, i) {
+                            Some(p) => Ok(seq.elem(p)),
+                            None => Err(ErrKind::Index),
+                        };
+                        for itext in [int_lit(i), format!("hi({})", int_lit(i))] {
+                            self.literal(&seq, "index:repeat-literal", &format!("{HALF_PRELUDE}{lit}[{itext}]"), &expected);
+                            self.literal(&seq, "index:repeat-literal-named", &format!("{HALF_PRELUDE}r := {lit}; r[{itext}]"), &expected);
+                        }
+                        for (a, b, c) in [(Some(i), None, None), (None, Some(i), None), (None, None, Some(i)), (Some(i), Some(n - 1), None), (Some(0), None, Some(i))] {
+                            let idx = py_slice(n as usize, a, b, c);
+                            let expected = Ok(seq.select(&idx));
+                            self.literal(&seq, "slice:repeat-literal", &format!("{HALF_PRELUDE}{lit}{}", slice_text(a, b, c, c.is_some())), &expected);
+                        }
+                    }
+                }
+            }
+        }
+    }
+
     /// what the checker must accept / refuse follows from the documented result kinds: an element of the array or a
     /// one-character string for `s[i]`, a sequence of the same kind for a slice, an int for `std.len`
     fn static_typing_templates(&mut self) {
-        let cases: [(&str, bool); 22] = [
+        let cases: [(&str, bool); 35] = [
             ("(s: [int]|string, i: int) -> int|string { return s[i] }", true),
             ("(s: [int]|string, i: int) -> string { return s[i] }", false),
             ("(s: [int]|string, i: int) -> int { return s[i] }", false),
@@ -496,6 +525,19 @@ impl Ctx<'_> {
             ("(s: [int]) -> int { return s[::2] }", false),
             ("(s: [int]|string) -> int { return std.len(s) }", true),
             ("(s: [int]|string) -> string { return std.len(s) }", false),
+            ("(x: int) -> any { return x[:] }", false),
+            ("(x: int) -> any { return x[::] }", false),
+            ("(t: (int, int)) -> any { return t[:] }", false),
+            ("(t: (int, int)) -> any { return t[::] }", false),
+            ("(c: mut [int]) -> any { return c[:] }", false),
+            ("(s: struct{a: int}) -> any { return s[::] }", false),
+            ("(f: () -> int) -> any { return f[:] }", false),
+            ("(u: [int]|int) -> any { return u[:] }", false),
+            ("(x: float) -> any { return x[0:] }", false),
+            ("(x: bool) -> any { return x[::1] }", false),
+            ("(s: [int]|string) -> [int]|string { return s[:] }", true),
+            ("(s: [int]) -> [int] { return s[::] }", true),
+            ("(s: string) -> string { return s[:] }", true),
             ("(s: [int]|string, i: int) -> int { return match s[i] { x: string => 1, } }", false),
             ("(s: [int]|string, i: int) -> int { return match s[i] { x: string => 1, y: int => 2, } }", true),
         ];
@@ -536,6 +578,7 @@ pub fn run(cfg: &Cfg, rep: &mut Report) {
     };
     if cfg.shard == 0 {
         ctx.static_typing_templates();
+        ctx.repeat_literals();
     }
     let seqs = sequences(true);
     let max_exhaustive = 5;
